@@ -14,6 +14,8 @@ func oneofConfig(disc string, fl bool) ExtV {
 	return ExtV{sh.E_OneofConfig, &sh.OneofConfig{Discriminator: disc, Flatten: fl}}
 }
 func bytesEnc(b sh.BytesEncoding) ExtV { return ExtV{sh.E_BytesEncoding, b} }
+func enumNumber() ExtV { return ExtV{sh.E_EnumEncoding, sh.EnumEncoding_ENUM_ENCODING_NUMBER} }
+func enumValue(v string) ExtV { return ExtV{sh.E_EnumValue, v} }
 func unwrap() ExtV { return ExtV{sh.E_Unwrap, true} }
 func tsFormat(f sh.TimestampFormat) ExtV { return ExtV{sh.E_TimestampFormat, f} }
 
@@ -87,6 +89,12 @@ func init() {
 			{Name: "id", Num: 2, Type: TString},
 		}}
 		rootlist := M{Name: "RootList", Fields: []F{{Name: "items", Num: 1, Type: TString, Repeated: true, Ext: []ExtV{unwrap()}}}}
+		enumm := M{Name: "EnumMsg", Fields: []F{
+			{Name: "status", Num: 1, Type: TEnum, TypeName: p + "Status"},
+			{Name: "prio_number", Num: 2, Type: TEnum, TypeName: p + "Priority", Ext: []ExtV{enumNumber()}},
+			{Name: "prio", Num: 3, Type: TEnum, TypeName: p + "Priority"},
+			{Name: "id", Num: 4, Type: TString},
+		}}
 		// contexts for C05: an annotated message nested in an unannotated parent
 		holder := M{Name: "Holder", Fields: []F{
 			{Name: "one", Num: 1, Type: TMessage, TypeName: p + "Int64Msg"},
@@ -96,7 +104,11 @@ func init() {
 		return Schema{Files: []File{{
 			Name: "gen/codecs/codecs.proto", Package: "acme.codecs", GoPackage: "verifmod/gen/codecs;codecs",
 			Deps:     []string{"proto/sebuf/http/annotations.proto", "google/protobuf/timestamp.proto"},
-			Messages: []M{child, small, int64m, nullm, emptym, flatm, flatchild, flatann, text, image, oneofm, oneofflat, bytesm, timem, strlist, unwrapmap, rootlist, holder},
+			Messages: []M{child, small, int64m, nullm, emptym, flatm, flatchild, flatann, text, image, oneofm, oneofflat, bytesm, timem, strlist, unwrapmap, rootlist, enumm, holder},
+			Enums: []E{
+				{Name: "Status", Values: []EV{{Name: "STATUS_UNSPECIFIED", Num: 0, Ext: []ExtV{enumValue("unknown")}}, {Name: "STATUS_ACTIVE", Num: 1, Ext: []ExtV{enumValue("active")}}}},
+				{Name: "Priority", Values: []EV{{Name: "PRIORITY_UNSPECIFIED", Num: 0}, {Name: "PRIORITY_HIGH", Num: 1}}},
+			},
 			Services: []S{{Name: "CodecService", Methods: []Me{
 				{Name: "EchoInt64", In: p + "Int64Msg", Out: p + "Int64Msg", Ext: []ExtV{HTTP(sh.HttpMethod_HTTP_METHOD_POST, "/int64")}},
 				{Name: "EchoHolder", In: p + "Holder", Out: p + "Holder", Ext: []ExtV{HTTP(sh.HttpMethod_HTTP_METHOD_POST, "/holder")}},
